@@ -78,7 +78,7 @@ def rule_acc(repo):
             if acc in ci.methods:
                 f = ci.methods[acc]
                 rets = returns_of(f.node)
-                ok = len(rets) == 1 and src(rets[0].value).replace(' ', '') == 'input.Exp().%s()' % acc
+                ok = len(rets) == 1 and src(rv(f.node, rets[0])).replace(' ', '') == 'input.Exp().%s()' % acc
                 res.inst({'function': f.fq, 'delegates_through_Exp': ok}, f.fq)
                 if not ok:
                     res.add(Finding('C03.ACC', f, 'algebra accessor %s must be the accessor of Exp(input)' % acc, construct='alg accessor'))
@@ -123,7 +123,7 @@ def rule_id(repo):
         a = ALG[G]
         fa = repo.func(LT, a + 'Type.identity')
         rets = returns_of(fa.node)
-        ok = len(rets) == 1 and src(rets[0].value).replace(' ', '') == '%s_type.Log(%s_type.identity(*size,**kwargs))' % (G, G)
+        ok = len(rets) == 1 and src(rv(fa.node, rets[0])).replace(' ', '') == '%s_type.Log(%s_type.identity(*size,**kwargs))' % (G, G)
         res.inst({'function': fa.fq, 'log_of_group_identity': ok}, fa.fq)
         if not ok:
             res.add(Finding('C03.ID', fa, '%s identity must be Log of the %s identity' % (a, G), construct='algebra identity'))
